@@ -51,7 +51,7 @@ def cases(ctx):
     return out
 
 
-def exact_bins(v, vmin, vmax, n):
+def exact_bins(v, vmin, vmax, n, feps=None):
     """-> (k, lo, hi): certain bin index k (or -1 = outside / non-finite) and, for points within EDGE_ULPS of an
     edge, the two admissible indices lo <= hi (each may be -1 = 'no bin')"""
     LD = np.longdouble
@@ -61,7 +61,9 @@ def exact_bins(v, vmin, vmax, n):
         t = (v - LD(vmin)) / width
         k = np.floor(t)
         fin = np.isfinite(t)
-        eps = EDGE_ULPS * np.finfo(np.float64).eps * (np.abs(v) + abs(LD(vmin)) + abs(LD(vmax))) / abs(width)
+        # the kernel computes in the precision of the coordinates it is given (float32 data -> float32)
+        feps = np.finfo(np.float64).eps if feps is None else feps
+        eps = EDGE_ULPS * feps * (np.abs(v) + abs(LD(vmin)) + abs(LD(vmax))) / abs(width)
         near_lo = fin & (t - k < eps)
         near_hi = fin & (k + 1 - t < eps)
 
@@ -75,12 +77,12 @@ def exact_bins(v, vmin, vmax, n):
     return kk, lo, hi, amb
 
 
-def judge(res, label, x, y, layers_vals, ops, grid, got_layers, got_counts=None):
+def judge(res, label, x, y, layers_vals, ops, grid, got_layers, got_counts=None, feps=None):
     """Compare binned results with the exact model on the observed grid.
     layers_vals: list of value arrays; ops: 'sum'|'mean'|'count'; got_layers: list of masked arrays (ny, nx)."""
     xmin, xmax, nx, ymin, ymax, ny = grid
-    kx, lox, hix, ax = exact_bins(x, xmin, xmax, nx)
-    ky, loy, hiy, ay = exact_bins(y, ymin, ymax, ny)
+    kx, lox, hix, ax = exact_bins(x, xmin, xmax, nx, feps)
+    ky, loy, hiy, ay = exact_bins(y, ymin, ymax, ny, feps)
     amb = ax | ay
     sure = (~amb) & (kx >= 0) & (ky >= 0)
     counts = np.zeros((ny, nx), dtype=np.int64)
@@ -323,10 +325,14 @@ def run_case(case, ctx, res):
             res.violate("centres-wrong", f"{label}: Plot.{ax} is not the list of bin centres of the grid")
             return
     got_layers = [lay["data"] for lay in plot.layers]
+    kdt = [np.asarray(k[c]).dtype for c in ("x", "y")] + [np.asarray(k[c]).dtype for c in ("xmin", "xmax", "ymin", "ymax")]
+    feps = max(float(np.finfo(d).eps) for d in kdt if d.kind == "f") if any(d.kind == "f" for d in kdt) else None
+    if any(d == np.float32 for d in kdt):
+        feps = float(np.finfo(np.float32).eps)
     if nl == 0:
-        ok = judge(res, label, xin, yin, [np.ones(n)], ["count"], grid, got_layers)
+        ok = judge(res, label, xin, yin, [np.ones(n)], ["count"], grid, got_layers, feps=feps)
     else:
-        ok = judge(res, label, xin, yin, layer_vals, layer_ops, grid, got_layers)
+        ok = judge(res, label, xin, yin, layer_vals, layer_ops, grid, got_layers, feps=feps)
     kx, _, _, ambx = exact_bins(xin, grid[0], grid[1], grid[2])
     ky, _, _, amby = exact_bins(yin, grid[3], grid[4], grid[5])
     inr = (kx >= 0) & (ky >= 0)
@@ -340,6 +346,6 @@ def run_case(case, ctx, res):
         res.violate("kernel-raised", f"{label}: utils.hist2d {o2.describe()}")
         return
     b, c = o2.value
-    judge(res, label + " [kernel]", xin, yin, [np.ones(n)], ["count"], grid, [np.ma.masked_where(c == 0, b[0])])
+    judge(res, label + " [kernel]", xin, yin, [np.ones(n)], ["count"], grid, [np.ma.masked_where(c == 0, b[0])])   # float64 call
     if not np.array_equal(b[0], c.astype(float)):
         res.violate("kernel-sum-vs-count", f"{label}: kernel sums of a unit layer differ from its counts")
